@@ -26,8 +26,9 @@ RULE = ('a case = (reference SEL device: log of 0..50 16-byte records with disti
         '03h, BFh) are decoded directly as well.  HISTORIES: several operations (listing / get-and-clear / get under a '
         'fresh reservation, with an explicit retry where the tree has one) on ONE Ipmi object against one evolving '
         'device, each step compared with the model started from the device as it stood (driver `snap`) and judged.  '
-        'The variant of pyipmi/sel.py (floor of max_req_len, retry budget of get-and-clear) is PROBED on the real code '
-        '(a device that refuses every length; a script that cancels before every request) and handed to the model.  '
+        'The variant of pyipmi/sel.py (floor of max_req_len, retry budget of get-and-clear, RetryError on a completed '
+        'answer without data) is PROBED on the real code (a device that refuses every length; a script that cancels before '
+        'every request; a fake that completes every read without a byte) and handed to the model.  '
         'Distinct by (device, operation); non-trivial = at least three exchanges.')
 ASSUMPTIONS = [
     'the device is the Lean reference device (Spec/SelDevice.lean): CAh for what it does not serve, C5h for a lost '
@@ -121,7 +122,7 @@ def run_real(drv, dev, op, cap=20000, seen=None):
 
 
 # ---- the variant of pyipmi/sel.py, probed on the real code -------------------------------------
-VARIANT = {'floor': None, 'budget': None}      # as shipped until probed
+VARIANT = {'floor': None, 'budget': None, 'empty': False}      # as shipped until probed
 PROBE_REC = '010002' + '11' * 13
 
 
@@ -138,12 +139,32 @@ def probe_variant(drv):
     dev = {'log': [PROBE_REC], 'limit': 16, 'whole': True, 'cur': 1, 'valid': False, 'evs': ['c'] * 400}
     out, trace, _ = run_real(drv, dev, ['gac', '1'], cap=300)
     budget = sum(1 for t in trace if t[0] == 0x42) if out == 'RetryError' else None
-    return {'floor': floor, 'budget': budget}
+    return {'floor': floor, 'budget': budget, 'empty': probe_empty_stop()}
+
+
+class _EmptyAnswers(object):
+    """Not a conforming device (and none of this property's): every Get SEL Entry is answered `00 FF FF` - completed,
+    next record id FFFFh, no record byte.  Only used to see which get_sel_entry the tree has."""
+
+    def request(self, netfn, cmd, payload):
+        if netfn == dev10.NETFN_STORAGE and cmd == 0x43:
+            return b'\x00\xff\xff'
+        return b'\xc1'
+
+
+def probe_empty_stop():
+    """True: get_sel_entry raises RetryError on a completed answer without a record byte (the model's
+    `Variant.emptyStop`); False: it sends the same request again (stopped here after 40).  C13's clause - on this
+    property's devices (limit >= 1) no answer is empty and the flag plays no role."""
+    iface = dev10.FakeInterface(_EmptyAnswers(), cap=40, files=('pyipmi/sel.py',), leaves=())
+    out = _guarded(dev10.make_ipmi(iface), ['get', '1', '1'], [])
+    return out == 'RetryError' and len(iface.trace) == 1
 
 
 def set_variant(drv, v):
     VARIANT.update(v)
-    r = drv.ask('variant %s %s' % ('-' if v['floor'] is None else v['floor'], '-' if v['budget'] is None else v['budget']))
+    r = drv.ask('variant %s %s %d' % ('-' if v['floor'] is None else v['floor'], '-' if v['budget'] is None else v['budget'],
+                                      1 if v.get('empty') else 0))
     if r != 'ok':
         raise lean.LeanError('driver rejected variant: %s' % r)
 
@@ -476,11 +497,10 @@ def _prepare(ctx, drv):
     v = probe_variant(drv)
     set_variant(drv, v)
     read = (_consts or {}).get('sel')
-    ctx.extra['sel_variant'] = {'probed_on_real_code': dict(v),
-                                'read_from_source': None if read is None else {'floor': read['floor'], 'budget': read['budget']}}
-    if read is not None and (read['floor'], read['budget']) != (v['floor'], v['budget']):
-        ctx.disagree('variant of pyipmi/sel.py: source reading vs behaviour', {},
-                     {'floor': read['floor'], 'budget': read['budget']}, v)
+    rd = None if read is None else {'floor': read['floor'], 'budget': read['budget'], 'empty': bool(read.get('emptyStop'))}
+    ctx.extra['sel_variant'] = {'probed_on_real_code': dict(v), 'read_from_source': rd}
+    if rd is not None and rd != v:
+        ctx.disagree('variant of pyipmi/sel.py: source reading vs behaviour', {}, rd, v)
 
 
 def history(ctx, drv, rng, dev, steps):
